@@ -123,7 +123,7 @@ type client struct {
 	context                          context.Context
 	cancelFunc                       context.CancelFunc
 	wg                               sync.WaitGroup // For the read loop.
-	v1ReadMutex                      sync.Mutex     // ATP v1 only: one result is read from the shared decoder at a time.
+	v1ExecuteMutex                   sync.Mutex     // ATP v1 only: one call at a time, from its work-start to its work-done.
 }
 
 func (c *client) sendCBOR(message any) error {
@@ -196,6 +196,13 @@ func (c *client) Execute(
 	// All reads go through the client's one decoder. A decoder reads ahead of the message it returns, so a
 	// decoder per Execute call would take bytes of later messages with it when its read loop ends.
 	cborReader := c.decoder
+	if c.atpVersion <= 1 {
+		// ATP v1 carries no run IDs and has no read loop: the next work-done on the stream answers the last
+		// work-start. Calls are therefore made one at a time, from the work-start to its work-done; otherwise
+		// overlapping calls could receive each other's results.
+		c.v1ExecuteMutex.Lock()
+		defer c.v1ExecuteMutex.Unlock()
+	}
 	if c.atpVersion > 1 {
 		// Wrap it in a runtime message.
 		workStartMsg = RuntimeMessage{RunID: stepData.RunID, MessageID: MessageTypeWorkStart, MessageData: workStartMsg}
@@ -559,10 +566,8 @@ func (c *client) getResultV1(
 ) ExecutionResult {
 	var doneMessage WorkDoneMessage
 	vh("c.v1decode.pre", "run", stepData.RunID)
-	// ATP v1 has no read loop: every Execute call reads its own result. The decoder is shared by all calls
-	// and must not be used by two of them at once.
-	c.v1ReadMutex.Lock()
-	defer c.v1ReadMutex.Unlock()
+	// ATP v1 has no read loop: every Execute call reads its own result from the shared decoder. Execute holds
+	// v1ExecuteMutex, so only one call is here at a time.
 	if err := cborReader.Decode(&doneMessage); err != nil {
 		vh("c.v1decode", "run", stepData.RunID, "err", err)
 		err = fmt.Errorf("failed to read or decode work done message (%w) for step %s", err, stepData.ID)
